@@ -1,4 +1,4 @@
-//@@ unit props=C16,C17,C07,C01,C06,C14
+//@@ unit props=C16,C17,C07,C01,C06,C14,C10
 // Unit xlsxwb: workbook-level plumbing of the xlsx reader (src/xlsx/mod.rs), verbatim text, under contract against a GHOST MODEL of
 // quick-xml and zip (assumptions A-xml / A-zip of DESIGN.md section 5).
 //
@@ -856,7 +856,7 @@ pub open spec fn first_named(sh: Seq<(String, String)>, name: Seq<char>, i: int)
 }
 
 //@@ impl src/xlsx/mod.rs Xlsx nth=1
-//@@ fn src/xlsx/mod.rs Xlsx::worksheet_cells_reader props=C07,C16 entry ret=r deref_pat
+//@@ fn src/xlsx/mod.rs Xlsx::worksheet_cells_reader props=C07,C16,C01,C10 entry ret=r deref_pat
 //@@ sig
     ensures
         //# C07.unknown_sheet_is_error
@@ -865,11 +865,11 @@ pub open spec fn first_named(sh: Seq<(String, String)>, name: Seq<char>, i: int)
         final(self).loaded() == old(self).loaded(),
         //# C07.cells_reader_keeps_header_row_option
         final(self).g_opts() == old(self).g_opts(),
-        //# C07.cells_reader_from_named_sheet_only
+        //# C07,C01.cells_reader_from_named_sheet_only
         r is Ok ==> exists|i: int| 0 <= i < old(self).g_sheets()@.len() && (#[trigger] old(self).g_sheets()@[i]).0@ == name@
             && (forall|j: int| 0 <= j < i ==> (#[trigger] old(self).g_sheets()@[j]).0@ != name@)
             && part_events(content(old(self).g_zip()), old(self).g_sheets()@[i].1@) == Some((r->Ok_0).xml_events()),
-        //# C07.cells_reader_opens_the_first_sheet_of_that_name
+        //# C07,C01.cells_reader_opens_the_first_sheet_of_that_name
         forall|i: int| #[trigger] first_named(old(self).g_sheets()@, name@, i) ==> ({
             let c = content(old(self).g_zip()); let path = old(self).g_sheets()@[i].1@;
             &&& (r is Ok <==> has_part(c, path) && part_events(c, path) is Some && prologue_ok(part_events(c, path)->Some_0))
@@ -877,16 +877,16 @@ pub open spec fn first_named(sh: Seq<(String, String)>, name: Seq<char>, i: int)
         //# C07.cells_reader_stream_of_that_part
         r is Ok ==> (r->Ok_0).fml_remaining() == fml_stream((r->Ok_0).xml_events()).0 && (r->Ok_0).fml_terminal() == fml_stream((r->Ok_0).xml_events()).1
             && (r->Ok_0).dims() == declared_dims((r->Ok_0).xml_events()),
-        //# C07.cells_reader_strings_formats
+        //# C07,C01,C10.cells_reader_strings_formats
         r is Ok ==> (r->Ok_0).strings() == old(self).g_strings()@ && (r->Ok_0).formats() == old(self).g_formats()@,
-        //# C16.date_system_flag_reaches_cells
+        //# C16,C10.date_system_flag_reaches_cells
         r is Ok ==> (r->Ok_0).is_1904() == old(self).g_1904(),
         //# C07.cells_reader_missing_part_is_error
         (forall|i: int| 0 <= i < old(self).g_sheets()@.len() && (#[trigger] old(self).g_sheets()@[i]).0@ == name@
             ==> !has_part(content(old(self).g_zip()), old(self).g_sheets()@[i].1@)) ==> r is Err && r->Err_0 is WorksheetNotFound,
 //@@ closure 0
     -> (res: bool) ensures
-        //# C07.sheet_lookup_exact_name
+        //# C07,C01.sheet_lookup_exact_name
         res == (__c0_0.0@ == name@)
 //@@ closure 1
     -> (e: XlsxError) ensures e is WorksheetNotFound
@@ -1047,7 +1047,7 @@ proof fn witness_tables_loaded<RS>(x: Xlsx<RS>)
 }
 
 //@@ impl src/xlsx/mod.rs Xlsx
-//@@ fn src/xlsx/mod.rs Xlsx::get_table_meta props=C17 ret=r
+//@@ fn src/xlsx/mod.rs Xlsx::get_table_meta props=C17,C06 ret=r
 //@@ sig
     requires
         //# C17.tables_loaded  (documented: "Tables must be loaded before they are referenced")
@@ -1484,7 +1484,7 @@ proof fn lemma_date1904_bytes()
 //@@ impl src/xlsx/mod.rs Xlsx
 #[verifier::loop_isolation(false)]
 #[verifier::allow_complex_invariants]
-//@@ fn src/xlsx/mod.rs Xlsx::read_workbook props=C16,C01 entry ret=r
+//@@ fn src/xlsx/mod.rs Xlsx::read_workbook props=C16,C01,C10,C07 entry ret=r
 //@@ sig
     ensures
         //# C07.read_workbook_frame
@@ -1493,16 +1493,16 @@ proof fn lemma_date1904_bytes()
             && content(final(self).zip) == content(old(self).zip),
         //# C16.sheets_and_metadata_aligned
         aligned(old(self).sheets@, old(self).metadata.sheets@) ==> aligned(final(self).sheets@, final(self).metadata.sheets@),
-        //# C16.sheet_paths_under_xl
+        //# C16,C01.sheet_paths_under_xl
         sheet_paths_under_xl(old(self).sheets@) ==> sheet_paths_under_xl(final(self).sheets@),
         //# C16.absent_workbook_part
         !has_part(content(old(self).zip), wb_path()) ==> r is Ok && final(self).sheets == old(self).sheets && final(self).metadata == old(self).metadata
             && final(self).is_1904 == old(self).is_1904,
-        //# C16.wellformed_workbook_is_read
+        //# C16,C01.wellformed_workbook_is_read
         ({ let evs = part_events(content(old(self).zip), wb_path()); let wb = wb_part(evs->Some_0, relationships@);
            has_part(content(old(self).zip), wb_path()) && evs is Some && wb.ok
              && main_ns_one_binding(evs->Some_0) ==> r is Ok }),
-        //# C16.sheets_in_document_order
+        //# C16,C01.sheets_in_document_order
         ({ let evs = part_events(content(old(self).zip), wb_path()); let wb = wb_part(evs->Some_0, relationships@);
            has_part(content(old(self).zip), wb_path()) && evs is Some && wb.ok
              && main_ns_one_binding(evs->Some_0) && r is Ok ==>
@@ -1512,7 +1512,7 @@ proof fn lemma_date1904_bytes()
            has_part(content(old(self).zip), wb_path()) && evs is Some && wb.ok
              && main_ns_one_binding(evs->Some_0) && r is Ok ==>
                names_are(final(self).metadata.names@, wb.names) }),
-        //# C16.date1904_from_workbookPr
+        //# C16,C10.date1904_from_workbookPr
         ({ let evs = part_events(content(old(self).zip), wb_path()); let wb = wb_part(evs->Some_0, relationships@);
            has_part(content(old(self).zip), wb_path()) && evs is Some && wb.ok
              && main_ns_one_binding(evs->Some_0) && r is Ok ==>
@@ -1549,7 +1549,7 @@ verif_str_split_nth(&path, \g<1>, \g<2>)
         }
 //@@ loop 0
             invariant_except_break
-                //# C16.code_follows_the_schema_walk
+                //# C16,C01,C10.code_follows_the_schema_walk
                 good ==> wb_scan(ev, xml.pos() as int, st, rels) == tot,
             invariant
                 xml.events() == ev,
@@ -1558,17 +1558,17 @@ verif_str_split_nth(&path, \g<1>, \g<2>)
                     && self.metadata.names == old(self).metadata.names,
                 //# C16.sheets_and_metadata_aligned_so_far
                 aligned0 ==> aligned(self.sheets@, self.metadata.sheets@),
-                //# C16.sheet_paths_under_xl_so_far
+                //# C16,C01.sheet_paths_under_xl_so_far
                 sheet_paths_under_xl(sh0) ==> sheet_paths_under_xl(self.sheets@),
-                //# C16.sheets_in_document_order_so_far
+                //# C16,C01.sheets_in_document_order_so_far
                 good ==> ext_sheets(sh0, self.sheets@, st.sheets),
                 //# C16.sheet_metadata_in_document_order_so_far
                 good ==> ext_meta(ms0, self.metadata.sheets@, st.sheets),
                 //# C16.defined_names_in_order_so_far
                 good ==> names_are(defined_names@, st.names),
-                //# C16.date1904_so_far
+                //# C16,C10.date1904_so_far
                 good ==> self.is_1904 == pr_or(st.pr, d0),
-                //# C16.root_element_name_kept
+                //# C16,C01,C10.root_element_name_kept
                 good ==> (if st.root { 0 <= ri < xml.pos() && root@ == ev[ri].name && qn_prefix(root@) == ev[ri].prefix && root@.len() > 0 }
                           else { root@.len() == 0 && first_start(ev, xml.pos() as int) == ri }),
                 ri == first_start(ev, 0),
@@ -1618,7 +1618,7 @@ verif_str_split_nth(&path, \g<1>, \g<2>)
                         invariant
                             attrs_match(it.seq(), at),
                             path@.len() == 0 || is_prefix("xl/"@, path@),
-                            //# C16.sheet_name_state_target_from_attributes
+                            //# C16,C01.sheet_name_state_target_from_attributes
                             good ==> sh_fold(at, it.index@ as int, rels) == Some(ShAcc { name: name@, vis: visible, path: path@ }),
 //@@ before /let a = a\.map_err/
                         let ghost k = it.index@ as int;
@@ -1673,10 +1673,10 @@ verif_str_split_nth(&path, \g<1>, \g<2>)
                         if good {
                             assert(st0.root);
                             assert(ev[pos].wf());
-                            //# C16.workbookPr_carries_the_root_prefix
+                            //# C16,C10.workbookPr_carries_the_root_prefix
                             assert(ev[pos].prefix == ev[ri].prefix);
                             assert(is_main(ev[pos]));
-                            //# C16.date1904_only_from_the_workbooks_workbookPr
+                            //# C16,C10.date1904_only_from_the_workbooks_workbookPr
                             assert(ev[pos].kind is Start && is_main(ev[pos]) && ev[pos].local == n_workbookpr()
                                 && st0.root && st0.skip == 0 && st0.ctx is Top && st0.pr is None);
                             assert(date1904_of(ev[pos]) is Some);
